@@ -49,7 +49,7 @@ ASSUMPTIONS = {
     'C06': ['B must issue the same event kinds, shapes and (bitwise) scales as A, consume all of A\'s events, raise iff A raises (same type), and return a dataframe identical to A\'s over the original domain'],
 }
 TIERS = {
-    p: {'quick': dict(runs=960, budget_s=420, hashseeds=4, minimise_s=150, grace_s=240),
+    p: {'quick': dict(runs=1280, budget_s=600, hashseeds=4, minimise_s=150, grace_s=240),
         'thorough': dict(runs=None, budget_s=900, hashseeds=16, minimise_s=400, grace_s=300)}
     for p in ('C05', 'C06')
 }
